@@ -55,6 +55,21 @@ def gen_T11():
          '_read: `self.eagains = 0` no longer follows `self.inbuffer += new_data`')
     hbody = [ast.unparse(b) for n in ast.walk(h) if isinstance(n, ast.If) for b in n.orelse]
     need('self.eagains += 1' in hbody, '_handleSocketError: the else branch no longer does `self.eagains += 1`: %r' % (hbody,))
+    # reconnect() (repair of C11.F47): what is buffered for / from the old connection and the EAGAIN count are dropped,
+    # unconditionally (top-level statements), before a new socket is obtained and before the wait=True early return
+    rc = find_def(t, 'reconnect', 'SocketDriver')
+    top = [ast.unparse(b) if isinstance(b, (ast.Assign, ast.AugAssign)) else type(b).__name__ for b in rc.body]
+    resets_rc = ["self.inbuffer = b''", "self.outbuffer = b''", 'self.eagains = 0']
+    need(all(x in top for x in resets_rc), 'reconnect(): expected the top-level statements %r, got %r' % (resets_rc, top))
+    sock_at = [i for i, b in enumerate(rc.body) if 'utils.net.getSocket' in ast.unparse(b)]
+    wait_at = [i for i, b in enumerate(rc.body) if isinstance(b, ast.If) and ast.unparse(b.test) == 'wait']
+    need(len(sock_at) == 1 and len(wait_at) == 1, 'reconnect(): expected one statement calling utils.net.getSocket and one `if wait:`')
+    need(max(top.index(x) for x in resets_rc) < min(sock_at[0], wait_at[0]),
+         'reconnect(): the buffers are no longer reset before `if wait:` / utils.net.getSocket')
+    others = [ast.unparse(n) for n in ast.walk(rc) if isinstance(n, (ast.Assign, ast.AugAssign))
+              and any(ast.unparse(x) in ('self.inbuffer', 'self.outbuffer', 'self.eagains')
+                      for x in (n.targets if isinstance(n, ast.Assign) else [n.target]))]
+    need(sorted(others) == sorted(resets_rc), 'reconnect(): other assignments to the buffers / EAGAIN count: %r' % (others,))
     # _read: the statements from recv() to the per-line loop, one by one (seeded change C11_8 put a length guard on the
     # remainder between `lines.pop()` and the loop): nothing but accumulate / split / keep the last piece may happen there
     rtry = [n for n in ast.walk(rd) if isinstance(n, ast.Try)
@@ -124,5 +139,6 @@ def gen_T11():
     out += 'Definition RECV_SIZE : N := %s.\n' % cN(recvs[0])
     out += 'Definition OUTBUFFER_IS_BYTES : bool := true.\n'
     out += 'Require Import Base.Wire.\nDefinition READ_CATCHES : list exn := %s.\n' % clist(cmap[h] for h in hn)
+    out += 'Definition RECONNECT_RESETS : bool := true.\n'
     out += 'Definition WHITESPACE : list N := %s.\n' % clist(cN(c) for c in ws)
     return 'src/drivers/Socket.py src/drivers/__init__.py src/utils/str.py', out
